@@ -173,6 +173,7 @@ class Engine(object):
         self.nvars = 0
         self.observed = []
         self.choices = []
+        self.raw_cache = {}
 
     # ------------------------------------------------------------------
     # Exploration
@@ -264,6 +265,7 @@ class Engine(object):
         self.solver.set("timeout", self.timeout_ms)
         self.model = None        # a model of the current path condition
         self.cache = {}          # simplified condition id -> bool
+        self.raw_cache = {}      # unsimplified condition id -> bool
         self.inputs = []         # (name, z3 const, kind)
         self.nvars = 0
         self.observed = []
@@ -369,10 +371,16 @@ class Engine(object):
 
     def branch(self, cond):
         """Decide a symbolic boolean z3 expression; returns a Python bool."""
+        raw = self.raw_cache.get(cond.get_id())
+        if raw is not None:
+            return raw[1]
+        raw_cond = cond
         cond = z3.simplify(cond)
         if z3.is_true(cond):
+            self.raw_cache[raw_cond.get_id()] = (raw_cond, True)
             return True
         if z3.is_false(cond):
+            self.raw_cache[raw_cond.get_id()] = (raw_cond, False)
             return False
         if not self.symbolic:
             raise Unsupported("symbolic branch in concrete mode")
@@ -381,6 +389,7 @@ class Engine(object):
         if hit is not None:
             _poll_alarm()
             self.stats.cache_hits += 1
+            self.raw_cache[raw_cond.get_id()] = (raw_cond, hit[1])
             return hit[1]
         self.stats.branches += 1
         ncond = z3.Not(cond)
@@ -416,6 +425,7 @@ class Engine(object):
         res = bool(d)
         # Keep the expression alive: z3 ids are only unique among live ASTs.
         self.cache[key] = (cond, res)
+        self.raw_cache[raw_cond.get_id()] = (raw_cond, res)
         self._add(cond if res else ncond)
         return res
 
@@ -459,21 +469,60 @@ class Engine(object):
             raise PathAbort()
 
     def concretise(self, e):
-        """Fork over every feasible value of the integer term `e`."""
+        """Fork over every feasible value of the integer term `e`.
+
+        The candidate value comes from a solver model, which is not
+        reproducible when the path is reached again by replaying its decision
+        prefix; so these decisions record the *value* ("v", value, taken) and
+        the replay never consults a model."""
         e = z3.simplify(e)
         v = _const_value(e)
         if v is not None:
             return v
         self.stats.concretised += 1
+        isbv = z3.is_bv(e)
+
+        def val(n):
+            return z3.BitVecVal(n, e.size()) if isbv else z3.IntVal(n)
         n = 0
         while True:
             n += 1
             if n > self.max_concretise:
                 raise Inconclusive("unbounded concretisation of %s" % e)
+            _poll_alarm()
+            i = len(self.trace)
+            if i >= self.max_decisions:
+                raise Inconclusive("more than %d decisions on one path" %
+                                   self.max_decisions)
+            if i < len(self.prefix):
+                d = self.prefix[i]
+                if not (isinstance(d, (tuple, list)) and d[0] == "v"):
+                    raise Inconclusive("decision replay out of step "
+                                       "(expected a value decision)")
+                self.trace.append(tuple(d))
+                if i == len(self.prefix) - 1:
+                    self.nforks = self.prefix_forks
+                if d[2]:
+                    self._add(e == val(d[1]))
+                    return d[1]
+                self._add(e != val(d[1]))
+                continue
             m = self._get_model()
-            v = m.eval(e, model_completion=True)
-            if self.branch(e == v):
-                return _const_value(v)
+            zv = m.eval(e, model_completion=True)
+            v = _const_value(zv)
+            # is any other value feasible?
+            other = self._check(e != zv) == z3.sat
+            if other:
+                if (self.frontier_depth is not None and
+                        self.nforks >= self.frontier_depth):
+                    raise _FrontierCut()
+                self.nforks += 1
+                self.stats.forks += 1
+                self.pending.append((self.trace + [("v", v, False)],
+                                     self.nforks))
+            self.trace.append(("v", v, True))
+            self._add(e == zv)
+            return v
 
     # ------------------------------------------------------------------
     # Inputs
@@ -508,13 +557,15 @@ class Engine(object):
         c = self._input(name, z3.BitVecSort(proxies.W), "bv")
         if not self.symbolic:
             return c
+        k0 = 0
         if bits < proxies.W:
             self._add(z3.ULT(c, z3.BitVecVal(1 << bits, proxies.W)))
+            k0 = ((1 << proxies.W) - 1) & ~((1 << bits) - 1)
         if lo is not None:
             self._add(c >= lo)
         if hi is not None:
             self._add(c <= hi)
-        return proxies.SymInt(c)
+        return proxies.SymInt(c, k0, 0)
 
     def bool(self, name):
         from . import proxies
